@@ -148,7 +148,40 @@ func runOracles(job JobCfg, res *Result) {
 	}
 	if noop, ok := res.Runs["noop"]; ok && noop.Err == "" && noop.Panic == "" {
 		gi, have := res.Runs["goimports"]
-		if d := checkFormat(noop.Out, def.Out, gi.Out, have && gi.Err == "" && gi.Panic == ""); d != "" {
+		haveGi := have && gi.Err == "" && gi.Panic == ""
+		d := checkFormat(noop.Out, def.Out, gi.Out, haveGi)
+		if d != "" && crossRun(d) {
+			// The three outputs come from three separate generations.  If the generator itself is
+			// not deterministic on this input (C14's subject, e.g. F-22) they can differ for that
+			// reason alone: compare every pairing of a few more generations before blaming the
+			// formatter.
+			noops, defs, gis := []string{noop.Out}, []string{def.Out}, []string{gi.Out}
+			for i := 0; i < 8; i++ {
+				if r := runMoq(job, "noop"); r.Err == "" && r.Panic == "" {
+					noops = append(noops, r.Out)
+				}
+				if r := runMoq(job, ""); r.Err == "" && r.Panic == "" {
+					defs = append(defs, r.Out)
+				}
+				if haveGi {
+					if r := runMoq(job, "goimports"); r.Err == "" && r.Panic == "" {
+						gis = append(gis, r.Out)
+					}
+				}
+			}
+		search:
+			for _, n := range uniq(noops) {
+				for _, g := range uniq(defs) {
+					for _, i := range uniq(gis) {
+						if d2 := checkFormat(n, g, i, haveGi); d2 == "" {
+							d = ""
+							break search
+						}
+					}
+				}
+			}
+		}
+		if d != "" {
 			res.Checks["C16"] = d
 		}
 	}
@@ -169,4 +202,21 @@ func checkRepeat(job JobCfg, reps int, res *Result) {
 		}
 	}
 	res.Checks["C14-reps"] = ""
+}
+
+// crossRun: diagnostics of checkFormat that compare outputs of different generations
+func crossRun(d string) bool {
+	return strings.HasPrefix(d, "gofmt(noop output) differs") || strings.HasPrefix(d, "goimports output:")
+}
+
+func uniq(l []string) []string {
+	seen := map[string]bool{}
+	var out []string
+	for _, s := range l {
+		if !seen[s] {
+			seen[s] = true
+			out = append(out, s)
+		}
+	}
+	return out
 }
